@@ -627,3 +627,15 @@ package notify
 //@   ensures [waits-exactly-when-clustered] called("notify.Peer).WaitReady") == (n.peer != nil)
 //@   noeffect notify.Peer).WaitReady
 //@   assigns nothing
+
+// ---- C04 / C11 / C10: the hash under which an alert is recorded in the notification log depends on the alert's label
+// names and values only - fed to one fixed, unseeded hash function - so that it is the same on every instance and in
+// every run of the process (the log is replicated and survives restarts).
+//@ func hashAlert
+//@   props C04 C11 C10
+//@   nosafe
+//@   at call xxhash/v2.Sum64 assert [one-fixed-hash-over-the-bytes-built-from-the-labels] count("xxhash/v2.Sum64") == 0 && count("sort.Sort") == 1
+//@   ensures [the-fixed-hash_s-value] count("xxhash/v2.Sum64") == 1 && result == ret("xxhash/v2.Sum64")
+//@   ensures [nothing-random-or-seeded] !called("rand.") && !called("NewWithSeed") && !called("maphash") && !called("time.Now")
+//@   loop 2 invariant !called("xxhash/v2.Sum64") && !called("sort.Sort")
+//@   loop 1 invariant count("sort.Sort") == 1 && !called("xxhash/v2.Sum64")
